@@ -34,6 +34,7 @@ type Config struct {
 	Solver         SolverKind
 	Verbose        bool
 	Summaries      map[string]bool
+	SelfTests      int
 }
 
 type Decision struct {
@@ -130,6 +131,7 @@ type Interp struct {
 	quiesceWaiters    int
 	events            []string
 	lastModel         map[string]uint64
+	obs               []obsRec
 	fmtPanics         int
 	fmtPanicDesc      []string
 	fmtDepth          int
@@ -156,6 +158,7 @@ type PathResult struct {
 	Sample     []InputVal
 	Goroutines int
 	SchedLen   int
+	SelfTest   *SelfTestCase
 }
 
 type Explorer struct {
@@ -197,6 +200,9 @@ type Explorer struct {
 	newViolations  int
 	knownViol      int
 	knownKept      map[string]int
+	selfTests      []*SelfTestCase
+	selfPending    int
+	selfSeen       int64
 }
 
 func NewExplorer(P *Program, cfg *Config, harness *ssa.Function, hname string) *Explorer {
@@ -380,6 +386,10 @@ func (ex *Explorer) record(r *PathResult) {
 			ex.inconclusive = append(ex.inconclusive, r.Msg)
 		}
 	}
+	if r.SelfTest != nil {
+		ex.selfPending--
+		ex.selfTests = append(ex.selfTests, r.SelfTest)
+	}
 	if r.Sample != nil && len(ex.samples) < 4 {
 		ex.samples = append(ex.samples, r.Sample)
 	}
@@ -463,6 +473,20 @@ func (it *Interp) finishPath(res *PathResult) {
 		return
 	}
 	res.Status = PathOK
+	if len(it.obs) > 0 && it.ex.wantSelfTest() {
+		if m := it.modelInputs(nil); m != nil {
+			st := &SelfTestCase{Inputs: m, Dict: it.dictModel(it.lastModel)}
+			memo := map[*Term]uint64{}
+			for _, o := range it.obs {
+				ov := ObsVal{Tag: o.tag, Vals: make([]uint64, len(o.terms))}
+				for i, t := range o.terms {
+					ov.Vals[i] = evalTerm(t, it.lastModel, memo)
+				}
+				st.Obs = append(st.Obs, ov)
+			}
+			res.SelfTest = st
+		}
+	}
 	if len(it.inputs) > 0 && it.dpos >= len(it.prefix) {
 		// sample: a model of this path
 		if it.ex.wantSample() {
@@ -470,6 +494,33 @@ func (it *Interp) finishPath(res *PathResult) {
 				res.Sample = m
 			}
 		}
+	}
+}
+
+func (ex *Explorer) wantSelfTest() bool {
+	ex.mu.Lock()
+	defer ex.mu.Unlock()
+	// spread the samples: take a path only every so often
+	ex.selfSeen++
+	if len(ex.selfTests)+ex.selfPending >= ex.cfg.SelfTests {
+		return false
+	}
+	if ex.selfSeen%ex.selfStride() != 1 && ex.selfStride() > 1 {
+		return false
+	}
+	ex.selfPending++
+	return true
+}
+
+func (ex *Explorer) selfStride() int64 {
+	n := int64(len(ex.selfTests) + ex.selfPending)
+	switch n {
+	case 0:
+		return 1
+	case 1:
+		return 7
+	default:
+		return 61
 	}
 }
 
@@ -739,6 +790,24 @@ func (it *Interp) bigAlloc(t *Term, what string) {
 }
 
 type pathViolation struct{ v *Violation }
+
+type obsRec struct {
+	tag   string
+	terms []*Term
+}
+
+// ObsVal is one observation evaluated under a path model.
+type ObsVal struct {
+	Tag  string   `json:"tag"`
+	Vals []uint64 `json:"vals"`
+}
+
+// SelfTestCase is a completed path with a model and the values the harness observed on it.
+type SelfTestCase struct {
+	Inputs []InputVal
+	Dict   []DictEntry
+	Obs    []ObsVal
+}
 
 // assume adds c to the path condition; prunes the path if infeasible.
 func (it *Interp) assume(c *Term) {
